@@ -342,7 +342,9 @@ func (rs *rowStore) iterate(ctx context.Context, outFields core.Fields, includeM
 	rs.mx.RLock()
 	fs := rs.fileStore
 	var ms *memstore
-	if includeMemStore {
+	if includeMemStore && rs.memStore != nil {
+		// (the row store installs its first memstore when its goroutine starts; a
+		// query that arrives earlier sees the file store only, there is nothing else)
 		ms = rs.memStore.copy()
 	}
 	vhook("iter.start", rs.t, fs.filename, includeMemStore, ms)
